@@ -332,6 +332,15 @@ def bounded_binop(it, t, a, b):
                 r = Term('mod2x', x.a[0], x.a[1])
                 r.bounds = (0, (1 << x.a[1].v) - 1)
                 return r
+    if t is ast.BitXor:
+        for x, y in ((a, b), (b, a)):
+            rx = irange(x)
+            if isinstance(y, K) and isinstance(y.v, int) and y.v > 0 and y.v & (y.v - 1) == 0 and rx is not None and not isinstance(x, K) and 0 <= rx[0] and rx[1] < y.v:
+                r = Term('+top', x, y)          # the bit is clear in x: flipping it adds its weight
+                r.bounds = (rx[0] + y.v, rx[1] + y.v)
+                return r
+    if t is ast.Sub and isinstance(a, Term) and a.op == '+top' and isinstance(b, K) and isinstance(b.v, int) and b.v == a.a[1].v:
+        return a.a[0]
     if t is ast.Sub and isinstance(a, Term) and a.op == 'mod2x' and isinstance(b, K) and isinstance(b.v, int) and b.v == 1 << (a.a[1].v - 1):
         return a.a[0]
     if t is ast.Add and isinstance(a, Term) and a.op == 'mod2x' and isinstance(b, K) and isinstance(b.v, int) and b.v == -(1 << (a.a[1].v - 1)):
